@@ -24,10 +24,22 @@ def handle (j : Json) : Except String Json := do
   let scheds ← (← J.arr? j "scheds").toList.mapM J.cuts?
   let flush ← J.arr? j "flush"
   if flush.size != scheds.length then throw "flush"
-  let hsPlain := (match ctype with | some c => [("Content-Type", c)] | none => [])
-  let hs := hsPlain ++ [("Content-Encoding", cenc)]
+  -- explicit header list (gates family) or the two-field form
+  let explicit ← J.headers? j
+  let hasExplicit := (j.getObjVal? "headers").toOption.isSome
+  let hs := if hasExplicit then explicit
+    else (match ctype with | some c => [("Content-Type", c)] | none => []) ++ [("Content-Encoding", cenc)]
+  let hsPlain := hs.filter fun h => J.lower h.1 != Rio.Consts.filterHeaderContentEncoding
   let probe : Chain ScriptDec Unit := Chain.new (scriptCodec { outs := [], fin := none }) J.lower fs hs
   let compressed := probe.items.head?.map (·.kind) == some "decode"
+  if !compressed && !probe.items.isEmpty then
+    -- no Content-Encoding header: a plain chain on the raw body; "=" = the single-chunk output
+    let pc : Chain Unit Unit := Chain.new noCodec J.lower fs hs
+    let one := pc.run htmlTokenize evalStandIn noCodec [body]
+    let sch := scheds.map fun cuts =>
+      let out := pc.run htmlTokenize evalStandIn noCodec (splitAt body cuts)
+      if out == one then toJson "=" else toJson (J.hex out)
+    return Json.mkObj [("m", Json.mkObj [("kinds", J.kindsJson probe), ("plain", Json.null), ("sch", Json.arr sch.toArray)])]
   if !compressed then
     -- empty chain: pass-through whatever the bytes are
     let sch := scheds.map fun _ => toJson "="
